@@ -11,7 +11,10 @@ def one(args):
     sid, props = args
     from armiverif.main import run_property
     from armiverif.overlay import overlay_from_patch
-    ov = overlay_from_patch(os.path.join(HERE, "seeded", sid, "patch.diff"))
+    try:
+        ov = overlay_from_patch(os.path.join(HERE, "seeded", sid, "patch.diff"))
+    except Exception as e:  # the tree moved under the patch: report, do not crash the matrix
+        return sid, {p: {"exit": 2, "violations": [], "errors": [f"STALE PATCH: {str(e)[:80]}"]} for p in props}
     out = {}
     for p in props:
         buf = io.StringIO()
